@@ -1,6 +1,6 @@
 # C27 - received offload superdatagrams split back exactly (see DESIGN.md section 4)
 CHECK = {
-    "pkg": "udp", "files": ["udp/c27_test.go"], "tags": "", "run": "^TestC27",
+    "pkg": "udp", "files": ["udp/c27_test.go", "udp/c27_loop_test.go"], "tags": "", "run": "^TestC27",
     "quick": {"scale": 1, "shards": 1, "timeout": 600},
     "thorough": {"scale": 12, "shards": 8, "timeout": 1500, "fuzz": [{"target": "FuzzC27", "seconds": 60}]},
     "rule": "deliverSegments: payload length 0..70000 (views of a shared arena with spare capacity) x segSize class "
@@ -14,7 +14,10 @@ CHECK = {
             "and flush against / right after a PROT_NONE page (faults are turned into failures); all results must be equal "
             "and, where the chain determines it, equal to an independent CMSG_NXTHDR walk; the parsed size is then fed to "
             "deliverSegments. Non-trivial: segSize splits the payload in >=2 pieces with a short tail, or the cmsg chain "
-            "has >=2 headers or ends at a corrupt length; distinct by (len,segSize) / (controllen, buffer bytes).",
+            "has >=2 headers or ends at a corrupt length; distinct by (len,segSize) / (controllen, buffer bytes). Loopback part: two production sockets on 127.0.0.1 with offloads on, "
+            "1-10 generated sends (WriteBatch bursts of equal sizes = one UDP_SEGMENT superdatagram, mixed-size batches, single "
+            "datagrams of 0..40000 bytes) received by ListenOut with 2..64 receive slots; the pieces delivered must be exactly the "
+            "datagrams sent, in order (non-trivial there: a plain datagram received after a coalesced one).",
     "assumptions": [
         "cmsghdr layout {size_t len; int level; int type} with word alignment (Linux ABI) is the specification of the ancillary data",
         "the value is only compared with the reference walk when every visited UDP_GRO cmsg covers its 4-byte payload "
